@@ -282,7 +282,15 @@ def _try_affine(
     affine: Affine2D, s1: SVGPath, s2: SVGPath, tolerance: float, comment: str
 ):
     s1_prime = _apply_affine(affine, s1)
-    return s1_prime.almost_equals(s2, tolerance)
+    if not s1_prime.almost_equals(s2, tolerance):
+        return False
+    if "a" in s1.d.lower():
+        # _affine_callback only rescales the radii of an arc; whether the arcs really
+        # land on each other (rotation, mirroring, skew) shows on their cubic form,
+        # whose control points are proper coordinates
+        s1_cubics = _apply_affine(affine, s1.arcs_to_cubics())
+        return s1_cubics.almost_equals(s2.arcs_to_cubics(), tolerance)
+    return True
 
 
 def _round(affine, s1, s2, tolerance):
